@@ -46,9 +46,9 @@ func (v *Validator) ValidateAll(ctx context.Context) (*ValidationReport, error) 
 		Results:   []ValidationResult{},
 	}
 
-	// Find PartStore using reflection
-	partStore := findPartStore(v.storage)
-	if partStore == nil {
+	// Find the part stores using reflection
+	partStores := findPartStores(v.storage)
+	if partStores == nil {
 		return nil, fmt.Errorf("could not find PartStore in storage hierarchy")
 	}
 
@@ -102,7 +102,7 @@ func (v *Validator) ValidateAll(ctx context.Context) (*ValidationReport, error) 
 			slog.Info(fmt.Sprintf("Validating object %d (Bucket: %s, Object: %s) - Rate: %.2f obj/s",
 				processedObjects, bucket.Name, object.Key, rate))
 
-			result := v.validateObject(ctx, db, partStore, partRepo, objectRepo, bucket.Name, object)
+			result := v.validateObject(ctx, db, partStores, partRepo, objectRepo, bucket.Name, object)
 			report.Results = append(report.Results, result)
 
 			if result.Success {
@@ -133,7 +133,7 @@ func (v *Validator) ValidateAll(ctx context.Context) (*ValidationReport, error) 
 	return report, nil
 }
 
-func (v *Validator) validateObject(ctx context.Context, db database.Database, partStore partstore.PartStore,
+func (v *Validator) validateObject(ctx context.Context, db database.Database, partStores *partstore.NamedPartStores,
 	partRepo part.Repository, objectRepo object.Repository,
 	bucketName storage.BucketName, object storage.Object) ValidationResult {
 
@@ -164,7 +164,18 @@ func (v *Validator) validateObject(ctx context.Context, db database.Database, pa
 		var partChecksums []storage.ChecksumValues
 
 		for _, part := range parts {
-			// Read part content
+			// Read part content from the store recorded on the part row
+			partStore, err := partStores.ByName(part.PartStoreName)
+			if err != nil {
+				result.Success = false
+				result.ErrorType = "Part retrieval failed"
+				result.PartFailures = append(result.PartFailures, PartFailure{
+					PartID:         part.PartId.String(),
+					SequenceNumber: part.SequenceNumber,
+					Error:          err.Error(),
+				})
+				continue
+			}
 			reader, err := partStore.GetPart(ctx, tx, part.PartId)
 			if err != nil {
 				result.Success = false
@@ -382,7 +393,11 @@ func (v *Validator) confirmDeletion(result ValidationResult) bool {
 	return false
 }
 
-func findPartStore(s interface{}) partstore.PartStore {
+// findPartStores walks the storage hierarchy (storage middlewares wrap an
+// inner storage.Storage field) down to the storage that owns the part stores:
+// either a named set of part stores (metadatapart storage) or a single
+// PartStore field, which is treated as the default store.
+func findPartStores(s interface{}) *partstore.NamedPartStores {
 	val := reflect.ValueOf(s)
 	if val.Kind() == reflect.Ptr {
 		val = val.Elem()
@@ -391,14 +406,31 @@ func findPartStore(s interface{}) partstore.PartStore {
 		return nil
 	}
 
-	// Check if any field is a PartStore
+	// Check if any field is a named part store set or a PartStore
+	namedPartStoresType := reflect.TypeOf((*partstore.NamedPartStores)(nil))
 	partStoreType := reflect.TypeOf((*partstore.PartStore)(nil)).Elem()
 
 	for i := 0; i < val.NumField(); i++ {
 		field := val.Field(i)
+		if field.Type() == namedPartStoresType {
+			// Handle unexported fields
+			named := reflect.NewAt(field.Type(), unsafe.Pointer(field.UnsafeAddr())).Elem().Interface().(*partstore.NamedPartStores)
+			if named != nil {
+				return named
+			}
+			continue
+		}
 		if field.Type().Implements(partStoreType) {
 			// Handle unexported fields
-			return reflect.NewAt(field.Type(), unsafe.Pointer(field.UnsafeAddr())).Elem().Interface().(partstore.PartStore)
+			single, ok := reflect.NewAt(field.Type(), unsafe.Pointer(field.UnsafeAddr())).Elem().Interface().(partstore.PartStore)
+			if !ok || single == nil {
+				continue
+			}
+			named, err := partstore.NewNamedPartStores(single, nil, nil)
+			if err != nil {
+				continue
+			}
+			return named
 		}
 	}
 
@@ -409,7 +441,7 @@ func findPartStore(s interface{}) partstore.PartStore {
 		if field.Type().Implements(storageType) {
 			// Recurse
 			inner := reflect.NewAt(field.Type(), unsafe.Pointer(field.UnsafeAddr())).Elem().Interface()
-			if bs := findPartStore(inner); bs != nil {
+			if bs := findPartStores(inner); bs != nil {
 				return bs
 			}
 		}
